@@ -115,6 +115,8 @@ type c11Conn struct {
 
 var nearKeySends atomic.Int64
 var ghostSends atomic.Int64
+var neverJoin atomic.Int64
+var refusing atomic.Value // address of the server whose key function refuses 0x0200
 var c11ConnID atomic.Int64
 var c11Tag atomic.Uint32
 
@@ -347,6 +349,20 @@ func c11History(srv *svc.Server, c *core.Collector, seed uint64, hid int, base i
 					}
 				}()
 				cn.joinCall = svc.Stamp()
+				if refusing.Load() == srv.Addr && r.Chance(1, 4) {
+					// only a refused message (a location report presenting this key), then gone: this connection never joins and must
+					// leave the key's owner, if there is one, alone
+					t.Write(t.Frame(0x0200, cn.firstSerial, c04Body(r, 2, 28)))
+					time.Sleep(time.Duration(r.Intn(1500)) * time.Microsecond)
+					if r.Bool() {
+						t.Reset()
+					} else {
+						t.Close()
+					}
+					<-done
+					neverJoin.Add(1)
+					continue
+				}
 				if r.Chance(1, 5) {
 					// an unsupported message first: the connection joins with its first HANDLED message
 					t.Write(t.Frame(0x0900, cn.firstSerial, []byte{1, 2, 3}))
@@ -508,6 +524,16 @@ func c11History(srv *svc.Server, c *core.Collector, seed uint64, hid int, base i
 		if j.Err != "" {
 			res = "exist"
 		}
+		if j.Err != "" && !strings.Contains(j.Err, "exist") {
+			// the key function refused the message (not a duplicate): no registry operation took place; the connection never owned
+			// the key and must not announce it when it leaves
+			for _, e := range leaves {
+				if e.Key == cn.key {
+					bad("callback|a connection whose key was refused by the key function announced that key to the leave callback", fmt.Sprintf("conn %d key %s", cn.id, cn.key))
+				}
+			}
+			continue
+		}
 		if res == "ok" && j.Key != cn.key {
 			bad("callback|join callback reports a different key", fmt.Sprintf("conn %d key %s joined as %q", cn.id, cn.key, j.Key))
 		}
@@ -600,6 +626,16 @@ func c11Worker(c *core.Collector, x *Ctx) {
 		c.Inconclusive()
 		return
 	}
+	// a third server whose key function refuses some messages (returns the key it would have used, and false): a terminal is
+	// admitted by its first message of another kind. Connections that only ever send refused messages never join.
+	srvR, err := svc.Start(func() service.TerminalEventer { return svc.NewRecorder() }, service.WithKeyFunc(func(m *service.Message) (string, bool) {
+		return m.JTMessage.Header.TerminalPhoneNo, m.JTMessage.Header.ID != 0x0200
+	}))
+	if err != nil {
+		c.Inconclusive()
+		return
+	}
+	refusing.Store(srvR.Addr)
 	n := c.N(75, 500)
 	sem := make(chan struct{}, 4)
 	var wg sync.WaitGroup
@@ -623,12 +659,17 @@ func c11Worker(c *core.Collector, x *Ctx) {
 				hs = srvK
 				c.Count("histories_with_custom_key_function", 1)
 			}
+			if h%6 == 4 {
+				hs = srvR
+				c.Count("histories_with_a_refusing_key_function", 1)
+			}
 			viol, incon, wit, nops := c11History(hs, c, c.Seed, x.Batch*100000+h, 3000000+x.Batch*100000+h*10, custom)
 			th, _ := svc.TraceHash(mark)
 			c.Evals(int64(nops))
 			c.Count("histories", 1)
 			c.Counter("sends_to_look_alike_keys_that_nobody_owns").Store(nearKeySends.Load())
 			c.Counter("sends_to_ghost_keys_of_second_frames").Store(ghostSends.Load())
+			c.Counter("connections_that_only_sent_refused_messages").Store(neverJoin.Load())
 			c.NonTrivial(core.HashString(fmt.Sprintf("%d/%d/%x", x.Batch, h, th)))
 			vmu.Lock()
 			switch {
